@@ -320,5 +320,36 @@ func (c *Ctx) writeEvidence(nviol int) {
 // Fatal reports an engine error (never a violation) and exits 3.
 func Fatal(format string, a ...interface{}) {
 	fmt.Fprintf(os.Stderr, "ENGINE-ERROR "+format+"\n", a...)
+	// Violations that were established before the machinery gave up are still true: report them (exit 1) rather than
+	// losing them behind the engine error. With nothing recorded this is a plain engine error (exit 3).
+	if Cur != nil && !inFatal && Cur.hasUnlistedViolation() {
+		inFatal = true
+		Cur.Capped(fmt.Sprintf("the run ended early with an engine error: "+format, a...))
+		Cur.Finish()
+	}
 	os.Exit(3)
+}
+
+var inFatal bool
+
+// hasUnlistedViolation tells whether a violation was recorded that no known-finding entry matches.
+func (c *Ctx) hasUnlistedViolation() bool {
+	findings := loadFindings()
+	c.mu.Lock()
+	defer c.mu.Unlock()
+	for _, v := range c.viol {
+		listed := false
+		for _, f := range findings {
+			if f.Property != c.ID || f.Status != "known" {
+				continue
+			}
+			if re, err := regexp.Compile("^(?:" + f.Key + ")$"); err == nil && re.MatchString(v.Key) {
+				listed = true
+			}
+		}
+		if !listed {
+			return true
+		}
+	}
+	return false
 }
